@@ -391,6 +391,13 @@ def Clean (fx : Fixes) : Expr → Bool
        else true)
   | .cond c a b => Clean fx c && Clean fx a && Clean fx b && (fx.fCond || isUns a == isUns b)
 
+/-- every integer / character constant of the expression has a C11 type -/
+def LitsOk : Expr → Bool
+  | .lit l => c11Lit l != .undef
+  | .un _ a => LitsOk a
+  | .bin _ a b => LitsOk a && LitsOk b
+  | .cond c a b => LitsOk c && LitsOk a && LitsOk b
+
 /-! ## Lexing literals and parsing the expression -/
 
 def digitVal (c : Char) : Option Nat :=
